@@ -180,14 +180,18 @@ output:
 		}},
 		{Name: "javaalias", Files: map[string]string{
 			"in/j.json": `{"$schema":"http://json-schema.org/draft-07/schema#","$ref":"#/definitions/Root","definitions":{
- "Root":{"type":"object","properties":{"a":{"$ref":"#/definitions/AliasOne"},"b":{"$ref":"#/definitions/AliasTwo"},"s":{"$ref":"#/definitions/S1"},"t":{"$ref":"#/definitions/S2"},"c1":{"$ref":"#/definitions/C1"},"c2":{"$ref":"#/definitions/C2"},"c3":{"$ref":"#/definitions/C3"},"conf":{"type":"object","default":{"x":"1","y":"2","z":"3"},"additionalProperties":{"type":"string"}},"list":{"type":"array","items":{"oneOf":[{"type":"string"},{"type":"integer"}]}},"list2":{"type":"array","items":{"oneOf":[{"type":"string"},{"type":"boolean"}]}}}},
+ "Root":{"type":"object","properties":{"a":{"$ref":"#/definitions/AliasOne"},"b":{"$ref":"#/definitions/AliasTwo"},"s":{"$ref":"#/definitions/S1"},"t":{"$ref":"#/definitions/S2"},"c1":{"$ref":"#/definitions/C1"},"c2":{"$ref":"#/definitions/C2"},"c3":{"$ref":"#/definitions/C3"},"conf":{"type":"object","default":{"x":"1","y":"2","z":"3"},"additionalProperties":{"type":"string"}},"sd":{"$ref":"#/definitions/S3","default":{"u":"1","v":"2","w":"3"}},"sd2":{"type":"object","properties":{"u":{"type":"string"},"v":{"type":"string"}},"default":{"u":"1","v":"2"}},"list":{"type":"array","items":{"oneOf":[{"type":"string"},{"type":"integer"}]}},"list2":{"type":"array","items":{"oneOf":[{"type":"string"},{"type":"boolean"}]}}}},
  "AliasOne":{"$ref":"#/definitions/S1"},"AliasTwo":{"$ref":"#/definitions/S2"},
  "S1":{"type":"object","properties":{"p":{"type":"string"}}},
  "S2":{"type":"object","properties":{"q":{"type":"integer"}}},
+ "S3":{"type":"object","properties":{"u":{"type":"string"},"v":{"type":"string"},"w":{"type":"string"}}},
  "C1":{"type":"string","const":"one"},"C2":{"type":"integer","const":2},"C3":{"type":"boolean","const":true}
 }}`,
 			"tmpl/extra/NOTES.md": `{{ range $k, $v := .Extra }}{{ $k }}={{ $v }};{{ end }} {{ range .Packages }}{{ . }},{{ end }}`,
-			"repo/README.md":       `{{ range .Languages }}{{ . }} {{ end }}|{{ range $k, $v := .Extra }}{{ $k }}={{ $v }};{{ end }}`,
+			"repo/common/README.md": `{{ range $k, $v := .Extra }}{{ $k }}={{ $v }};{{ end }}`,
+			"repo/go/GO.md":         `go {{ .Extra.first }}`,
+			"repo/java/JAVA.md":     `java {{ .Extra.second }}`,
+			"repo/php/PHP.md":       `php`,
 			"pipeline.yaml": `parameters:
   a: 'one'
   b: '%a%-two'
